@@ -83,7 +83,9 @@ func (s *Server) doScanCommon(cmd redcon.Command) ([]interface{}, []byte, error)
 			results = make([]interface{}, length)
 			for i, h := range handlers {
 				wg.Add(1)
-				cmds[i].Args[countIndex] = []byte(strconv.Itoa(everyCount))
+				if countIndex > 0 {
+					cmds[i].Args[countIndex] = []byte(strconv.Itoa(everyCount))
+				}
 				go func(index int, handle common.MergeCommandFunc) {
 					defer wg.Done()
 					var err error
